@@ -10,6 +10,10 @@ package main
 // kind=issuer    : op.NewProvider with a static issuer string (what net/url.Parse says about it is the oracle).
 // kind=dynissuer : op.NewProvider with IssuerFromHost / IssuerFromForwardedOrHost(path) and the issuer produced for one request.
 // kind=discover  : client.Discover against a server that serves a document with a chosen issuer.
+// kind=visit     : ONE provider (mostly with a request-derived issuer: IssuerFromHost, IssuerFromForwardedOrHost with the default or custom
+//                  header names; both routers) is asked by 2-4 different hosts, interleaved and repeatedly (`prov`, `step`, `order`): at every
+//                  visit the discovery document is fetched through that host and then tokens are issued through the same host
+//                  (authorization-code flow: id_token + JWT access token; client_credentials where the storage supports it). One line per visit.
 
 import (
 	"bufio"
@@ -25,6 +29,7 @@ import (
 	"sort"
 	"strings"
 
+	"github.com/muhlemmer/httpforwarded"
 	"github.com/zitadel/oidc/v3/pkg/client"
 	"github.com/zitadel/oidc/v3/pkg/oidc"
 	"github.com/zitadel/oidc/v3/pkg/op"
@@ -286,6 +291,7 @@ func c19RunConfig(r *hx.Rand, caseNo int, c c19Cfg, stats map[string]int) *hx.Li
 		eff = legEps
 	}
 	l.S("is.kind", c.Issuer.Kind).S("is.arg", c.Issuer.Arg).S("host", c.Issuer.Host)
+	c19ParseKVP(l, c.Issuer.Arg, "ip.")
 	if c.Issuer.Fwd != nil {
 		l.S("fwd", *c.Issuer.Fwd)
 	}
@@ -538,6 +544,447 @@ func c19RunConfig(r *hx.Rand, caseNo int, c c19Cfg, stats map[string]int) *hx.Li
 	return l
 }
 
+// ---------------------------------------------------------------- sequences of requests from several hosts to ONE provider
+
+// how one forwarding header reaches the provider
+type c19Hdr struct {
+	Name  string   // canonical header name
+	Vals  []string // raw values
+	State string   // host | nohost | malformed  (what the sender put there)
+	Host  string   // State == host: the host the sender named first
+}
+
+// one "host" of a sequence: the Host line and the forwarding headers of every request that comes through it
+type c19Via struct {
+	Host string
+	Hdrs []c19Hdr
+}
+
+func c19FwdValue(r *hx.Rand, h string) []string {
+	q := "\"" + h + "\""
+	forms := [][]string{
+		{"for=192.0.2.1;host=" + q + ";proto=https"},
+		{"for=192.0.2.1, for=198.51.100.2;host=" + q + ";proto=https"},
+		{"for=192.0.2.1", "host=" + q},
+		{"for=192.0.2.1;host=" + q + ", for=10.0.0.1;host=\"other.example\""},
+		{"proto=https;host=" + q + ";by=203.0.113.43"},
+	}
+	if !strings.ContainsAny(h, ":[]") {
+		forms = append(forms, []string{"host=" + h}, []string{"for=192.0.2.1; host=" + h})
+	}
+	return forms[r.Intn(len(forms))]
+}
+
+func c19HdrFor(r *hx.Rand, name, state, host string) c19Hdr {
+	switch state {
+	case "host":
+		return c19Hdr{Name: name, Vals: c19FwdValue(r, host), State: state, Host: host}
+	case "nohost":
+		return c19Hdr{Name: name, Vals: []string{hx.Pick(r, "for=192.0.2.1;proto=https", "for=\"[2001:db8::1]\"", "proto=http")}, State: state}
+	}
+	return c19Hdr{Name: name, Vals: []string{hx.Pick(r, "for=;;", "=bad", "for=192.0.2.1;=x", ";host")}, State: "malformed"}
+}
+
+type c19SeqCfg struct {
+	Router                             string
+	S256, Post, PKJWT, Refresh, ReqObj bool
+	Caps                               refstore.Caps
+	Profile                            int
+	Kind, Arg                          string   // static | host | forwarded
+	Custom                             []string // forwarded: WithIssuerFromCustomHeaders(names...) (nil: default "Forwarded")
+	Insecure                           bool
+}
+
+func (c c19SeqCfg) issuerFn() func(bool) (op.IssuerFromRequest, error) {
+	switch c.Kind {
+	case "host":
+		return op.IssuerFromHost(c.Arg)
+	case "forwarded":
+		if c.Custom != nil {
+			return op.IssuerFromForwardedOrHost(c.Arg, op.WithIssuerFromCustomHeaders(c.Custom...))
+		}
+		return op.IssuerFromForwardedOrHost(c.Arg)
+	}
+	return op.StaticIssuer(c.Arg)
+}
+
+// the header names the provider trusts, canonical, in its order
+func (c c19SeqCfg) trusted() []string {
+	if c.Kind != "forwarded" {
+		return nil
+	}
+	if c.Custom == nil {
+		return []string{"Forwarded"}
+	}
+	var out []string
+	for _, h := range c.Custom {
+		out = append(out, http.CanonicalHeaderKey(h))
+	}
+	return out
+}
+
+var c19HostNames = []string{"tenant1.example", "tenant2.example:8080", "login.tenant3.example", "t4.example:8443", "[2001:db8::4]:9000", "127.0.0.1:9998",
+	"T5.Example", "xn--bcher-kva.example", "tenant6.example:443"}
+
+// c19Vias: n different ways into the provider, each with its own effective host
+func c19Vias(r *hx.Rand, c c19SeqCfg, n int) []c19Via {
+	names := append([]string{}, c19HostNames...)
+	for i := len(names) - 1; i > 0; i-- {
+		j := r.Intn(i + 1)
+		names[i], names[j] = names[j], names[i]
+	}
+	trusted := c.trusted()
+	var vias []c19Via
+	for k := 0; k < n; k++ {
+		name := names[k]
+		v := c19Via{Host: name}
+		switch {
+		case c.Kind == "forwarded":
+			// the effective host is `name`: named by a trusted header (behind a proxy with an internal Host line), or the Host line itself
+			// when no trusted header names a host (absent / without host parameter / malformed)
+			mode := r.Intn(10)
+			switch {
+			case mode < 6: // a trusted header names the host
+				v.Host = hx.Pick(r, "internal.local", "10.0.0.7:8080", names[(k+1)%len(names)])
+				at := r.Intn(len(trusted))
+				for i, h := range trusted {
+					switch {
+					case i < at:
+						if st := hx.Pick(r, "absent", "nohost", "malformed"); st != "absent" {
+							v.Hdrs = append(v.Hdrs, c19HdrFor(r, h, st, ""))
+						}
+					case i == at:
+						v.Hdrs = append(v.Hdrs, c19HdrFor(r, h, "host", name))
+					default:
+						if r.Bool() {
+							v.Hdrs = append(v.Hdrs, c19HdrFor(r, h, "host", "later.example")) // a later trusted header loses
+						}
+					}
+				}
+			default: // no trusted header names a host: the Host line counts
+				for _, h := range trusted {
+					if st := hx.Pick(r, "absent", "absent", "nohost", "malformed"); st != "absent" {
+						v.Hdrs = append(v.Hdrs, c19HdrFor(r, h, st, ""))
+					}
+				}
+			}
+			if c.Custom != nil && !contains(trusted, "Forwarded") && r.Chance(50) {
+				v.Hdrs = append(v.Hdrs, c19HdrFor(r, "Forwarded", "host", "untrusted.example")) // not a trusted header: ignored
+			}
+		default:
+			// host / static: forwarding headers are not looked at
+			if r.Chance(40) {
+				v.Hdrs = append(v.Hdrs, c19HdrFor(r, "Forwarded", hx.Pick(r, "host", "host", "nohost", "malformed"), "spoofed.example"))
+			}
+		}
+		vias = append(vias, v)
+	}
+	return vias
+}
+
+func contains(xs []string, x string) bool {
+	for _, y := range xs {
+		if y == x {
+			return true
+		}
+	}
+	return false
+}
+
+// c19Order: every host once (in index order), then 0-4 further visits; the label names hosts by first occurrence (a, b, c, d)
+func c19Order(r *hx.Rand, n int) ([]int, string) {
+	var order []int
+	switch r.Intn(4) {
+	case 0: // a a b b ...: every host twice in a row
+		for k := 0; k < n; k++ {
+			order = append(order, k, k)
+		}
+	default:
+		for k := 0; k < n; k++ {
+			order = append(order, k)
+		}
+	}
+	for extra := r.Intn(5); extra > 0; extra-- {
+		order = append(order, r.Intn(n))
+	}
+	var b strings.Builder
+	for _, k := range order {
+		b.WriteByte(byte('a' + k))
+	}
+	return order, b.String()
+}
+
+// c19OrderClass: the shape of a visiting order. `once` / `twice-in-a-row` = how the first round goes; then whether a host is asked again after
+// ANOTHER host has been asked in between (the situation in which a provider that remembers earlier requests goes wrong): the first host,
+// a later one, both, or none.
+func c19OrderClass(order []int) string {
+	base := "once"
+	if len(order) >= 2 && order[0] == order[1] {
+		base = "twice-in-a-row"
+	}
+	seen := map[int]bool{}
+	first, later := false, false
+	for i, k := range order {
+		if seen[k] && order[i-1] != k {
+			if k == order[0] {
+				first = true
+			} else {
+				later = true
+			}
+		}
+		seen[k] = true
+	}
+	switch {
+	case first && later:
+		return base + "+returns-to-first-and-later-hosts"
+	case first:
+		return base + "+returns-to-first-host"
+	case later:
+		return base + "+returns-to-later-host"
+	}
+	return base + "+no-return"
+}
+
+func c19RunSequence(r *hx.Rand, caseNo *int, prov int, c c19SeqCfg, emit func(*hx.Line), stats map[string]int) {
+	legacy := c.Router == "legacy"
+	*op.DefaultEndpoints = c19Pristine
+	var provEps, legEps epSet
+	if legacy {
+		legEps = c19EndpointSet(r, c.Profile, true)
+		provEps = c19EndpointSet(r, hx.Pick(r, 0, 0, 1), false)
+	} else {
+		provEps = c19EndpointSet(r, c.Profile, false)
+	}
+	opts := c19ProviderOptions(r, provEps)
+	if c.Insecure {
+		opts = append(opts, op.WithAllowInsecure())
+	}
+	bc := opbed.Config{Router: c.Router, Caps: c.Caps, S256: c.S256, Post: c.Post, PrivateKeyJWT: c.PKJWT, Refresh: c.Refresh, RequestObject: c.ReqObj,
+		Options: opts, IssuerFn: c.issuerFn()}
+	eff := provEps
+	if legacy {
+		ep := legEps.endpoints()
+		bc.Endpoints = &ep
+		eff = legEps
+	}
+	n := 2 + r.Intn(3)
+	vias := c19Vias(r, c, n)
+	order, label := c19Order(r, n)
+	oclass := c19OrderClass(order)
+	trusted := c.trusted()
+	base := func() *hx.Line {
+		l := hx.NewLine("C19").I("case", int64(*caseNo)).S("kind", "visit").S("router", c.Router).
+			B("f.s256", c.S256).B("f.post", c.Post).B("f.pkjwt", c.PKJWT).B("f.refresh", c.Refresh).B("f.reqobj", c.ReqObj).
+			B("insecure", c.Insecure).B("cap.cc", c.Caps.CC).B("cap.te", c.Caps.TE).B("cap.dev", c.Caps.Device).I("profile", int64(c.Profile))
+		provEps.kv(l, "pe.")
+		if legacy {
+			legEps.kv(l, "le.")
+		}
+		l.S("is.kind", c.Kind).S("is.arg", c.Arg)
+		c19ParseKVP(l, c.Arg, "ip.")
+		if c.Custom != nil {
+			l.L("is.hdrs", trusted)
+		}
+		return l.I("prov", int64(prov)).I("nhosts", int64(n)).S("order", label).S("oclass", oclass)
+	}
+	var bed *opbed.Bed
+	var err error
+	func() {
+		defer func() {
+			if p := recover(); p != nil {
+				err = fmt.Errorf("panic: %v", p)
+			}
+		}()
+		bed, err = opbed.New(bc)
+	}()
+	if err != nil {
+		stats["seq-construct-failed"]++
+		emit(base().I("step", 0).S("obs", "panic").S("o.err", err.Error()))
+		return
+	}
+	probe := opbed.WebClient("probe", "probe-secret", c19Redirect)
+	probe.TokenType = op.AccessTokenTypeJWT
+	bed.Store.AddClient(probe)
+	bed.Store.AddUser("user1", nil)
+	auth := opbed.Auth{Kind: "basic", ID: "probe", Secret: "probe-secret"}
+	tokenPath, authPath := "", ""
+	if !eff["Token"].Nil {
+		tokenPath = c19RelPath(eff["Token"].Path)
+	}
+	if !eff["Authorization"].Nil {
+		authPath = c19RelPath(eff["Authorization"].Path)
+	}
+	stats["seq-providers"]++
+	stats[fmt.Sprintf("hosts-per-provider-%d", n)]++
+	stats["discovery-order-"+oclass]++
+	stats["seq-router-"+c.Router]++
+	kind := c.Kind
+	if c.Custom != nil {
+		kind += "+custom-headers"
+	}
+	stats["seq-issuer-"+kind]++
+	issOf := func(tok string) (string, bool) {
+		claims, ok := opbed.DecodeJWT(tok)
+		if !ok {
+			return "", false
+		}
+		iss, ok := claims["iss"].(string)
+		return iss, ok
+	}
+	for step, k := range order {
+		via := vias[k]
+		do := func(req *http.Request) *opbed.Resp {
+			req.Host = via.Host
+			for _, h := range via.Hdrs {
+				req.Header[h.Name] = append([]string{}, h.Vals...)
+			}
+			return bed.Do(req)
+		}
+		l := base().I("step", int64(step)).S("via", string(rune('a'+k))).S("host", via.Host)
+		// the forwarding headers of the request (and the trusted names that are absent), with the library's answer as the model's oracle
+		type hv struct {
+			name string
+			vals []string
+		}
+		var hs []hv
+		for _, h := range via.Hdrs {
+			hs = append(hs, hv{h.Name, h.Vals})
+		}
+		for _, t := range trusted {
+			found := false
+			for _, h := range via.Hdrs {
+				found = found || h.Name == t
+			}
+			if !found {
+				hs = append(hs, hv{t, nil})
+			}
+		}
+		l.I("hn", int64(len(hs)))
+		for i, h := range hs {
+			hosts, perr := httpforwarded.ParseParameter("host", h.vals)
+			l.S(fmt.Sprintf("h%d.name", i), h.name).L(fmt.Sprintf("h%d.vals", i), h.vals).B(fmt.Sprintf("h%d.perr", i), perr != nil).L(fmt.Sprintf("h%d.hosts", i), hosts)
+		}
+		// ground truth of the sender: the first trusted header, in the provider's order, that is well-formed and names a host
+		for _, t := range trusted {
+			named := false
+			for _, h := range via.Hdrs {
+				if h.Name == t && h.State == "host" {
+					l.S("fwd", h.Host)
+					named = true
+				}
+			}
+			if named {
+				break
+			}
+		}
+		// ---- the document for THIS host
+		dresp := do(bed.Get(oidc.DiscoveryEndpoint, nil, ""))
+		if dresp.Panicked {
+			emit(l.S("obs", "panic"))
+			continue
+		}
+		l.S("obs", "ok").I("d.status", int64(dresp.Status))
+		doc := new(oidc.DiscoveryConfiguration)
+		json.Unmarshal(dresp.Body, doc)
+		adv := map[string]string{"Authorization": doc.AuthorizationEndpoint, "Token": doc.TokenEndpoint, "Introspection": doc.IntrospectionEndpoint,
+			"Userinfo": doc.UserinfoEndpoint, "Revocation": doc.RevocationEndpoint, "EndSession": doc.EndSessionEndpoint,
+			"CheckSessionIframe": doc.CheckSessionIframe, "JwksURI": doc.JwksURI, "DeviceAuthorization": doc.DeviceAuthorizationEndpoint}
+		l.S("d.issuer", doc.Issuer)
+		for _, nm := range c19Names {
+			l.S("d."+c19Field[nm], adv[nm])
+		}
+		var grants, pkce, methods []string
+		for _, g := range doc.GrantTypesSupported {
+			grants = append(grants, string(g))
+		}
+		for _, m := range doc.CodeChallengeMethodsSupported {
+			pkce = append(pkce, string(m))
+		}
+		for _, m := range doc.TokenEndpointAuthMethodsSupported {
+			methods = append(methods, string(m))
+		}
+		l.L("d.grants", grants).L("d.pkce", pkce).L("d.authmethods", methods).B("d.reqobj", doc.RequestParameterSupported)
+		// ---- tokens issued through the same host right afterwards
+		via2 := "none"
+		if authPath != "" && tokenPath != "" {
+			q := url.Values{"client_id": {"probe"}, "redirect_uri": {c19Redirect}, "response_type": {"code"}, "scope": {"openid"}, "state": {"st"}}
+			resp := do(bed.Get(authPath, q, ""))
+			if resp.Loc != nil && strings.HasPrefix(resp.Loc.Path, "/login") {
+				id := resp.Loc.Query().Get("authRequestID")
+				bed.Store.CompleteAuthRequest(id, "user1")
+				resp = do(bed.Get(authPath+"/callback", url.Values{"id": {id}}, ""))
+				if resp.Loc != nil && resp.Loc.Query().Get("code") != "" {
+					f := url.Values{"grant_type": {string(oidc.GrantTypeCode)}, "code": {resp.Loc.Query().Get("code")}, "redirect_uri": {c19Redirect}}
+					resp = do(bed.Form(tokenPath, f, auth))
+					if resp.Status == 200 {
+						if iss, ok := issOf(resp.Str("id_token")); ok {
+							l.S("tok.id", iss)
+							via2 = "code"
+						}
+						if iss, ok := issOf(resp.Str("access_token")); ok {
+							l.S("tok.at", iss)
+						}
+					}
+				}
+			}
+		}
+		if c.Caps.CC && tokenPath != "" {
+			resp := do(bed.Form(tokenPath, url.Values{"grant_type": {string(oidc.GrantTypeClientCredentials)}, "scope": {"openid"}}, auth))
+			if resp.Status == 200 {
+				if iss, ok := issOf(resp.Str("access_token")); ok {
+					l.S("tok.cc", iss)
+					if via2 == "code" {
+						via2 = "code+cc"
+					} else {
+						via2 = "cc"
+					}
+				}
+			}
+		}
+		l.S("tokvia", via2)
+		stats["visit-tokens-"+via2]++
+		stats["visits"]++
+		if step > 0 && k != order[0] {
+			stats["visits-at-a-host-other-than-the-first"]++
+		}
+		emit(l)
+	}
+}
+
+func c19SeqConfigs(r *hx.Rand, count int) []c19SeqCfg {
+	var out []c19SeqCfg
+	for i := 0; i < count; i++ {
+		c := c19SeqCfg{Router: hx.Pick(r, "provider", "legacy"), S256: r.Bool(), Post: r.Bool(), PKJWT: r.Chance(30), Refresh: r.Bool(), ReqObj: r.Chance(30),
+			Caps: refstore.Caps{CC: r.Chance(60), TE: r.Chance(40), Device: r.Chance(40)}, Insecure: r.Chance(25)}
+		if c.Router == "legacy" {
+			c.Profile = hx.Pick(r, 0, 1, 3, 4)
+		} else {
+			c.Profile = hx.Pick(r, 0, 1, 3)
+		}
+		switch x := r.Intn(20); {
+		case x < 7:
+			c.Kind = "host"
+		case x < 14:
+			c.Kind = "forwarded"
+		case x < 18:
+			c.Kind = "forwarded"
+			c.Custom = hx.Pick(r, []string{"x-forwarded"}, []string{"X-Original-Forwarded", "forwarded"}, []string{"Forwarded", "X-Fwd"})
+		default:
+			c.Kind = "static"
+		}
+		if c.Kind == "static" {
+			c.Arg = hx.Pick(r, "https://op.example", "https://op.example/oidc")
+			if c.Insecure {
+				c.Arg = hx.Pick(r, "http://localhost:9998", "https://op.example")
+			}
+		} else {
+			c.Arg = hx.Pick(r, "", "", "/oidc", "realm/a", "/oidc/", "/t/1")
+		}
+		out = append(out, c)
+	}
+	return out
+}
+
 // ---------------------------------------------------------------- issuer strings
 
 var c19IssuerPool = []string{
@@ -572,13 +1019,16 @@ func c19ErrName(err error) string {
 	return "other"
 }
 
-func c19ParseKV(l *hx.Line, s string) {
+func c19ParseKV(l *hx.Line, s string) { c19ParseKVP(l, s, "p.") }
+
+// what net/url.Parse says about s (the oracle of the model), under a key prefix
+func c19ParseKVP(l *hx.Line, s, pre string) {
 	u, err := url.Parse(s)
 	if err != nil {
-		l.B("p.err", true)
+		l.B(pre+"err", true)
 		return
 	}
-	l.B("p.err", false).S("p.scheme", u.Scheme).S("p.host", u.Host).S("p.frag", u.Fragment).I("p.nq", int64(len(u.Query())))
+	l.B(pre+"err", false).S(pre+"scheme", u.Scheme).S(pre+"host", u.Host).S(pre+"frag", u.Fragment).I(pre+"nq", int64(len(u.Query())))
 }
 
 func c19Construct(issuer func(bool) (op.IssuerFromRequest, error), insecure bool) (p *op.Provider, err error, panicked bool) {
@@ -770,6 +1220,14 @@ func c19Stream(r *hx.Rand, tier string, n int, w *bufio.Writer) map[string]int {
 		c := c19Cfg{Router: "provider", S256: true, Refresh: true, Profile: hx.Pick(r, 0, 1), Issuer: issuers[0], LaterProvider: true}
 		emit(c19RunConfig(r, caseNo, c, stats))
 		stats["later-provider"]++
+	}
+	// (1b) sequences of requests from several hosts to one provider
+	nSeq := 110
+	if tier == "thorough" {
+		nSeq = 2500
+	}
+	for prov, sc := range c19SeqConfigs(r, nSeq) {
+		c19RunSequence(r, &caseNo, prov, sc, emit, stats)
 	}
 	// (2) issuer strings at provider construction
 	for _, s := range c19IssuerPool {
